@@ -182,6 +182,7 @@ def run(prop, tier, seed, replay=None):
         "samples": samples,
         "model": models,
         "verdict_classes": {"%s/%s" % k: n for k, n in sorted(classes.items())},
+        "deviation_ids_seen": sorted({verdicts[r["id"]]["dev"] for r in runs if verdicts[r["id"]]["k"] in ("viol", "known")}),
         "exhaustive": False,
     })
     rep.assumptions += [
